@@ -3,6 +3,8 @@ package main
 import (
 	"context"
 	"encoding/json"
+	"fmt"
+	"time"
 
 	"github.com/cloudwego/gopkg/protocol/thrift"
 	"github.com/cloudwego/gopkg/protocol/thrift/base"
@@ -95,12 +97,24 @@ func callEntry(e *rawEntry, b []byte) (ok bool, n int, panicked bool) {
 // rawSweep: every byte string up to maxLen over the full alphabet into every entry point (and every type byte
 // for the two allocation-free skippers).  The expectation is C03Rule only, so only failures become cases.
 func rawSweep(c *Ctx, maxLen int, skipTypes []int, allTypesUpTo int) {
+	rawSweepN(c, maxLen, skipTypes, allTypesUpTo, -1)
+}
+
+// rawSweepN stops after limit strings (limit < 0: no limit); used for profiling
+func rawSweepN(c *Ctx, maxLen int, skipTypes []int, allTypesUpTo int, limit int) {
 	someTypes := []int{2, 3, 4, 6, 8, 10, 11, 12, 13, 14, 15, 0, 1, 16, -1, -128}
 	entries := rawEntries()
 	var n int64
 	buf := make([]byte, maxLen)
 	var rec func(l, max int) bool
+	shieldExtra = 64
+	defer func() { shieldExtra = allocCap }()
+	seen := 0
 	check := func(b []byte) bool {
+		seen++
+		if limit >= 0 && seen > limit {
+			return false
+		}
 		gb := guardCopy(b)
 		if gb == nil {
 			gb = b
@@ -189,12 +203,14 @@ func checkC03(c *Ctx) {
 	for t := -128; t <= 127; t++ {
 		types = append(types, t)
 	}
+	t0 := time.Now()
 	if c.Thorough() {
 		rawSweep(c, 2, types, 2)
 		rawSweep3Skip(c)
 	} else {
 		rawSweep(c, 2, types, 1)
 	}
+	fmt.Printf("SWEEP raw inputs: %.1fs\n", time.Since(t0).Seconds())
 	c.Assume("declared sizes are unrestricted for thrift.Binary.Skip, BytesSkipDecoder and the scalar/header readers; capped at 1 MiB (65536 entries for maps / unknown-field containers) for entry points that allocate what the input declares")
 	c.Assume("out-of-slice loads are observed through PROT_NONE guard pages on both sides of inputs up to 128 KiB (debug.SetPanicOnFault)")
 }
